@@ -172,6 +172,50 @@ type Outcome struct {
 	// Cells: for closures, the final content facts of the captured variables
 	// the closure stores to (one Abs per free variable, Unknown for the others).
 	Cells string
+	// Escaped: for a function that hands out closures over its own local cells (a helper returning a workspace
+	// together with the function that releases it), the content facts of those cells at the return — the caller
+	// carries them on, and a later call of the closure through the returned function value starts from them.
+	Escaped string
+}
+
+// escapedCells lists the simple local cells of fn that a closure made in fn captures (in instruction order).
+func escapedCells(fn *ssa.Function) []*ssa.Alloc {
+	var out []*ssa.Alloc
+	seen := map[*ssa.Alloc]bool{}
+	for _, b := range fn.Blocks {
+		for _, in := range b.Instrs {
+			mc, ok := in.(*ssa.MakeClosure)
+			if !ok {
+				continue
+			}
+			for _, bd := range mc.Bindings {
+				if al, ok := bd.(*ssa.Alloc); ok && !seen[al] && al.Parent() == fn && simpleCell(al) {
+					seen[al] = true
+					out = append(out, al)
+				}
+			}
+		}
+	}
+	return out
+}
+
+// closureSite: the one MakeClosure instruction that makes closure function f (nil if there are several or none).
+func closureSite(f *ssa.Function) *ssa.MakeClosure {
+	if f == nil || f.Parent() == nil {
+		return nil
+	}
+	var site *ssa.MakeClosure
+	for _, b := range f.Parent().Blocks {
+		for _, in := range b.Instrs {
+			if mc, ok := in.(*ssa.MakeClosure); ok && mc.Fn == ssa.Value(f) {
+				if site != nil {
+					return nil
+				}
+				site = mc
+			}
+		}
+	}
+	return site
 }
 
 type summary struct {
@@ -1385,6 +1429,21 @@ func (e *Engine) doReturn(c *config, ret *ssa.Return, sum *summary, isRoot bool)
 			o.Cells = encAbs(cells)
 		}
 	}
+	if esc := escapedCells(c.fn); len(esc) > 0 && !isRoot {
+		facts := make([]Abs, len(esc))
+		any := false
+		for i, al := range esc {
+			if id, ok := e.ids[al]; ok {
+				facts[i] = c.get(id)
+				if facts[i] != Unknown {
+					any = true
+				}
+			}
+		}
+		if any {
+			o.Escaped = encAbs(facts)
+		}
+	}
 	if _, ok := sum.outs[o]; !ok {
 		sum.outs[o] = c
 		e.grew = true
@@ -1655,6 +1714,19 @@ func (e *Engine) doCall(c *config, call ssa.CallInstruction) []*config {
 						pf[i] = e.eval(cur, args[i-shift])
 					}
 				}
+				// a closure reached through a function value (returned by the helper that made it): the cells it captured
+				// carry the facts the helper left in them
+				if _, direct := call.Common().Value.(*ssa.MakeClosure); !direct {
+					if mc := closureSite(f); mc != nil {
+						for i, b := range mc.Bindings {
+							if al, ok := b.(*ssa.Alloc); ok && i < len(f.FreeVars) && simpleCell(al) {
+								if id, ok := e.ids[al]; ok {
+									pf[len(f.Params)+i] = cur.get(id)
+								}
+							}
+						}
+					}
+				}
 				// captured read-only cells carry their facts into the closure
 				if mc, ok := call.Common().Value.(*ssa.MakeClosure); ok && mc.Fn == f {
 					for i, b := range mc.Bindings {
@@ -1685,6 +1757,15 @@ func (e *Engine) doCall(c *config, call ssa.CallInstruction) []*config {
 					rets := DecodeRets(o.Rets)
 					if len(rets) != nres {
 						rets = make([]Abs, nres)
+					}
+					if o.Escaped != "" {
+						facts := DecodeRets(o.Escaped)
+						for i, al := range escapedCells(f) {
+							if i < len(facts) && facts[i] != Unknown {
+								e.id(al)
+								e.setFact(n, al, facts[i])
+							}
+						}
 					}
 					if mc, ok := call.Common().Value.(*ssa.MakeClosure); ok && mc.Fn == f && o.Cells != "" {
 						// the closure stored to captured variables: their content is what the closure left
